@@ -580,16 +580,25 @@ template <class Archive>
 RCP<const Basic> load_basic(Archive &ar, RCP<const Interval> &)
 {
     RCP<const Number> start, end;
-    bool left_open, right_open;
+    // read the flags as bytes: loading a byte other than 0/1 into a bool is
+    // undefined behaviour
+    uint8_t left_open, right_open;
     ar(left_open, start, right_open, end);
-    return make_rcp<const Interval>(start, end, left_open, right_open);
+    if (left_open > 1 or right_open > 1) {
+        throw SerializationError("Interval: invalid flag");
+    }
+    return make_rcp<const Interval>(start, end, left_open == 1,
+                                    right_open == 1);
 }
 template <class Archive>
 RCP<const Basic> load_basic(Archive &ar, RCP<const BooleanAtom> &)
 {
-    bool val;
+    uint8_t val;
     ar(val);
-    return boolean(val);
+    if (val > 1) {
+        throw SerializationError("BooleanAtom: invalid value");
+    }
+    return boolean(val == 1);
 }
 template <class Archive>
 RCP<const Basic> load_basic(Archive &ar, RCP<const And> &)
